@@ -131,7 +131,14 @@ func (c *WarmUpTrafficShapingCalculator) coolDownTokens(currentTime uint64, pass
 	if oldValue <= int64(c.warningToken) {
 		newValue = int64(float64(oldValue) + (float64(currentTime)-float64(atomic.LoadUint64(&c.lastFilledTime)))*c.threshold/1000.0)
 	} else if oldValue > int64(c.warningToken) {
-		if passQps < float64(uint32(c.threshold)/c.coldFactor) {
+		// the low-traffic bound is the integer quotient threshold/coldFactor; when the threshold is
+		// smaller than the cold factor that quotient is 0 and no traffic, however low, is "below" it:
+		// the bucket then never cooled down again. A second without any pass is low traffic in any case.
+		lowTraffic := uint32(c.threshold) / c.coldFactor
+		if lowTraffic < 1 {
+			lowTraffic = 1
+		}
+		if passQps < float64(lowTraffic) {
 			newValue = int64(float64(oldValue) + float64(currentTime-atomic.LoadUint64(&c.lastFilledTime))*c.threshold/1000.0)
 		}
 	}
